@@ -171,6 +171,8 @@ func VerifH_C12_Scope() {
 
 // VerifH_C12_PartialChain: f(?, x) is a function of its placeholders; v ~> f(a) = f(v, a); f ~> g
 // applies f then g; calling a non-function is an error.
+const c12Steps = `($s1 := function($l){$append($l, 1)}; $s2 := function($l){$append($l, 2)}; $s3 := function($l){$append($l, 3)}; $i := function($l){$append($l, 8)}; $j := function($l){$append($l, 9)}; `
+
 func VerifH_C12_PartialChain() {
 	a, b, c := hFinite(), hFinite(), hFinite()
 	doc := map[string]interface{}{"a": a, "b": b, "c": c}
@@ -195,6 +197,15 @@ func VerifH_C12_PartialChain() {
 		{`(function($p){[$p, b]} ~> function($l){$l[0]})(a)`, a, oValue, 0},
 		{`($f := function($p){$p + 1}; $g := function($p){$p * 2}; a ~> $f ~> $g)`, (a + 1) * 2, oValue, 0},
 		{`($f := function($p){$p + 1}; $g := function($p){$p * 2}; ($f ~> $g)(a))`, (a + 1) * 2, oValue, 0},
+		// a composition bound to a variable and extended twice: the extensions are independent
+		{c12Steps + `$c := $s1 ~> $s2; $x := $c ~> $i; $y := $c ~> $j; {"x": $x([a]), "y": $y([a]), "c": $c([a])})`,
+			map[string]interface{}{"x": lst(a, 1.0, 2.0, 8.0), "y": lst(a, 1.0, 2.0, 9.0), "c": lst(a, 1.0, 2.0)}, oValue, 0},
+		{c12Steps + `$c := $s1 ~> $s2 ~> $s3; $x := $c ~> $i; $y := $c ~> $j; {"x": $x([a]), "y": $y([a]), "c": $c([a])})`,
+			map[string]interface{}{"x": lst(a, 1.0, 2.0, 3.0, 8.0), "y": lst(a, 1.0, 2.0, 3.0, 9.0), "c": lst(a, 1.0, 2.0, 3.0)}, oValue, 0},
+		{c12Steps + `$c := $s1 ~> $s2 ~> $s3 ~> $s1; $x := $c ~> $i; $y := $c ~> $j ~> $i; {"x": $x([a]), "y": $y([a]), "c": $c([a])})`,
+			map[string]interface{}{"x": lst(a, 1.0, 2.0, 3.0, 1.0, 8.0), "y": lst(a, 1.0, 2.0, 3.0, 1.0, 9.0, 8.0), "c": lst(a, 1.0, 2.0, 3.0, 1.0)}, oValue, 0},
+		{c12Steps + `$c := $s1 ~> $s2 ~> $s3; $x := $c ~> $i; $y := $c ~> $j; $z := $x ~> $j; {"x": $x([a]), "y": $y([a]), "z": $z([a])})`,
+			map[string]interface{}{"x": lst(a, 1.0, 2.0, 3.0, 8.0), "y": lst(a, 1.0, 2.0, 3.0, 9.0), "z": lst(a, 1.0, 2.0, 3.0, 8.0, 9.0)}, oValue, 0},
 		{`a(b)`, nil, oEvalError, ErrNonCallable},
 		{`a ~> b`, nil, oEvalError, ErrNonCallableApply},
 		{`a(?, b)`, nil, oEvalError, ErrNonCallablePartial},
